@@ -27,14 +27,11 @@ def View.attrs (v : View) : Int × Int × Int := (v.start, v.stop, v.offset)
 macro "view_eq" : tactic => `(tactic|
   first
     | rfl
-    | (simp only [View.attrs, View.len, View.address, View.available, mkView, Prod.mk.injEq]
+    | (simp only [View.attrs, View.len, View.address, View.available, mkView]
        try split_ifs
-       all_goals first
-         | rfl
-         | omega
-         | (refine ⟨?_, ?_⟩ <;> first | rfl | omega)
-         | (refine ⟨?_, ?_, ?_⟩ <;> first | rfl | omega)
-         | (refine ⟨?_, ?_, ?_, ?_⟩ <;> first | rfl | omega)))
+       all_goals (try simp only [Prod.mk.injEq, and_true, true_and])
+       all_goals (try (repeat' apply And.intro))
+       all_goals first | rfl | trivial | omega))
 
 /-- `SlicedMemoryIO.__init__` as written in the source = the model's `mkView` (whatever the attributes were) -/
 theorem gen_init (s e o : Int) (c : Bool) (start stop : Int) :
@@ -68,6 +65,12 @@ theorem gen_bytes_available (v : View) :
 /-- a view with new attribute values -/
 def View.withAttrs (v : View) (a : Int × Int × Int) : View := { v with start := a.1, stop := a.2.1, offset := a.2.2 }
 
+/-- two `done (setView w i v') .none` results are equal when the stored views are (field by field, by arithmetic) -/
+macro "view_upd" : tactic => `(tactic|
+  (refine congrArg (fun v' => done (setView _ _ v') Ret.none) ?_
+   simp only [View.withAttrs, View.mk.injEq]
+   (repeat' apply And.intro) <;> first | rfl | trivial | omega))
+
 /-- the model's `seek` IS the generated `seek` behind the `_if_not_closed` guard: the attributes the source
 code leaves are the view the model stores, its `ValueError` is the model's -/
 theorem gen_seek (w : World) (i : Nat) (v : View) (n whence : Int) :
@@ -84,10 +87,10 @@ theorem gen_seek (w : World) (i : Nat) (v : View) (n whence : Int) :
     · simp only [h0, if_true]; rfl
     by_cases h1 : whence = 1
     · simp only [h0, h1, if_true, if_false]
-      first | rfl | (simp only [View.withAttrs]; congr 3; omega)
+      first | rfl | view_upd
     by_cases h2 : whence = 2
     · simp only [h0, h1, h2, if_true, if_false]
-      first | rfl | (simp only [View.withAttrs]; congr 3; omega)
+      first | rfl | view_upd
     · simp only [h0, h1, h2, if_false]
 
 /-- `__getitem__` as written in the source: the contiguity test and the address clipping are the model's
